@@ -248,6 +248,9 @@ CORE_SHEETS = [
     ('core_redef1.css', 'html { --x: #ccc }\nhtml { --x: #888 }\n.a { color: var(--x); background-color: #fff }\n', {'core', 'var-redefined:same-selector-later-wins'}),
     ('core_redef2.css', ':root { --x: #222 }\nhtml { --x: #ccc }\n.a { color: var(--x); background-color: #fff }\n', {'core', 'var-redefined:root-beats-later-html'}),
     ('core_redef3.css', 'html { --x: #222 }\n:root { --x: #999 }\n.a { color: var(--x); background-color: #fff }\n', {'core', 'var-redefined:html-then-root'}),
+    # reference cycles and self-reference among custom properties (no colour can be resolved: needs attention, nothing written, nothing raised)
+    ('core_cycle1.css', ':root { --a: var(--b); --b: var(--a) }\n.x { color: var(--a); background-color: #fff }\n.y { color: #888; background-color: #fff }\n', {'core', 'var-cycle'}),
+    ('core_cycle2.css', 'html { --a: var(--a); --c: var(--c) }\n.x { color: var(--a, #999); background-color: #fff }\n.y { color: var(--b, var(--c)); }\n', {'core', 'var-cycle'}),
     # same selector twice, different outcomes; deep nesting
     ('core_same_sel.css', '.a { color: #000; background-color: #fff }\n@media print { @supports (display: grid) { .a { color: #999; background-color: #fff } } }\n.a { color: #fefefe; background-color: #fff }\n', {'core', 'nested:2'}),
     ('core_deep.css', '@media (min-width: 1px) { @supports (display: grid) { @media print { .a { color: #8a8a8a; background-color: #fff } } } }\n', {'core', 'nested:3'}),
